@@ -11,6 +11,8 @@ shrinks, writes the replay and the evidence, and prints the VIOLATION / KNOWN-FI
 import hashlib, json, os, random, re, resource, subprocess, sys, time
 from concurrent.futures import ThreadPoolExecutor
 
+os.makedirs('/root/scratch', exist_ok=True)   # scratch for harness temp files and coverage data (outside /repo and /verif)
+
 VERIF = os.path.dirname(os.path.dirname(os.path.abspath(__file__)))
 COQ = os.path.join(VERIF, 'coq')
 OCAML = os.path.join(VERIF, 'ocaml')
